@@ -36,6 +36,13 @@ def run(ctx):
             recs = ctx.read_ndjson(of)
             ctx.samples = [dict(text=x["obs"]["text"], accepted=x["obs"]["accepted"], ops=len(x["obs"].get("ops", [])))
                            for x in recs[3:len(recs):len(recs) // 5]]
+    def corrupt(r):
+        ops = r["obs"].get("ops") or []
+        if r["obs"].get("accepted") and ops:
+            ops[len(ops) // 2]["out"] = "panic"
+            return True
+        return False
+    vp.binding_selftest(ctx, "Judge_c13", "Judge_c13.cfg", ctx.path("obs_dims.ndjson"), corrupt)
     # the repository's own test statements (~400, in the maintainers' spellings) as an extra trace source
     of = ctx.path("obs_repo.ndjson")
     ctx.drive("c13", None, of, args=["repo-corpus"])
